@@ -4,10 +4,15 @@
 #define VERIF_C_GF_H
 
 /* dfcc havocs mutable statics: every fact about the doubling table is a precondition */
+#ifdef VERIF_NO_TABLE
+/* fallback used only when the sources no longer define polyseed_mul2_table (see tools/vlib.py) */
+#define TABLE_OK 1
+#else
 #define TABLE_OK (polyseed_mul2_table[0] == 5 && polyseed_mul2_table[1] == 7 \
     && polyseed_mul2_table[2] == 1 && polyseed_mul2_table[3] == 3 \
     && polyseed_mul2_table[4] == 13 && polyseed_mul2_table[5] == 15 \
     && polyseed_mul2_table[6] == 9 && polyseed_mul2_table[7] == 11)
+#endif
 
 #define COEFFS_OK(p) ((p)->coeff[0] < 2048 && (p)->coeff[1] < 2048 && (p)->coeff[2] < 2048 \
     && (p)->coeff[3] < 2048 && (p)->coeff[4] < 2048 && (p)->coeff[5] < 2048 \
